@@ -56,6 +56,10 @@ def layouts(fmt):
     # repeated species (multiplicity must survive)
     out.append((["H", "H"], ["H", "H", "H-"]))
     out.append((["H"] * nrmax, ["H"] * npmax))
+    if fmt in ("umist", "uclchem", "naunet", "krome"):
+        # separator-delimited formats carry names of any length (longer than the 12 characters the native writer pads to)
+        out.append((["CH3CH2CH2CH2OH", "H3+"], ["CH3CH2CH2CH2OH2+", "H2"]))
+        out.append((["CH3CH2CH2CH2OH2+", "e-"], ["CH3CH2CH2CH2OH", "H"]))
     return out
 
 
